@@ -421,3 +421,244 @@ func SliceShrinkByIdentity(p *core.Program, r *core.Report, rule string) {
 	r.RuleCounts[rule] = n
 	r.Floor(rule, 1)
 }
+
+// DiffWorkloadKeyAgreement is C04-g: the diff identifies a workload by Peer.String() (namespace/name[kind]) in the
+// pair key; the set that decides "new" / "lost" must be filled and consulted with the same key function.
+func DiffWorkloadKeyAgreement(p *core.Program, r *core.Report, rule string) {
+	fill := p.Func(core.PkgDiff, "", "getPeersNamesFromPeersList")
+	look := p.Func(core.PkgDiff, "connsPair", "updateNewOrLostFields")
+	if fill == nil || look == nil {
+		r.Lost(rule, "diff.getPeersNamesFromPeersList / (*connsPair).updateNewOrLostFields")
+		return
+	}
+	isPeerString := func(info *types.Info, e ast.Expr) bool {
+		c, ok := ast.Unparen(e).(*ast.CallExpr)
+		if !ok || len(c.Args) != 0 {
+			return false
+		}
+		fn := core.Callee(info, c)
+		if fn == nil || fn.Name() != "String" {
+			return false
+		}
+		se, ok := ast.Unparen(c.Fun).(*ast.SelectorExpr)
+		if !ok {
+			return false
+		}
+		t := info.TypeOf(se.X)
+		return t != nil && strings.HasSuffix(t.String(), "Peer")
+	}
+	// fill: every store into the returned set is keyed by <peer>.String()
+	{
+		info := fill.Pkg.TypesInfo
+		n, ok := 0, true
+		ast.Inspect(fill.Decl.Body, func(nd ast.Node) bool {
+			as, isAs := nd.(*ast.AssignStmt)
+			if !isAs || len(as.Lhs) != 1 {
+				return true
+			}
+			ix, isIx := ast.Unparen(as.Lhs[0]).(*ast.IndexExpr)
+			if !isIx {
+				return true
+			}
+			n++
+			if !isPeerString(info, ix.Index) {
+				ok = false
+			}
+			return true
+		})
+		r.Check(n > 0 && ok, rule, fill.Key()+": the set of a report's workloads is keyed by Peer.String()", p.Pos(fill.Decl.Pos()), "", "the workload set is keyed by something other than Peer.String(): the pair key distinguishes workloads by namespace/name[kind], so a coarser or finer key here mislabels new and lost workloads")
+	}
+	{
+		info := look.Pkg.TypesInfo
+		sig := look.Obj.Type().(*types.Signature)
+		var setP *types.Var
+		for i := 0; i < sig.Params().Len(); i++ {
+			if _, isMap := sig.Params().At(i).Type().Underlying().(*types.Map); isMap {
+				setP = sig.Params().At(i)
+			}
+		}
+		n, ok := 0, true
+		ast.Inspect(look.Decl.Body, func(nd ast.Node) bool {
+			ix, isIx := nd.(*ast.IndexExpr)
+			if !isIx {
+				return true
+			}
+			id, isID := ast.Unparen(ix.X).(*ast.Ident)
+			if !isID || info.ObjectOf(id) != setP {
+				return true
+			}
+			n++
+			if !isPeerString(info, ix.Index) {
+				ok = false
+			}
+			return true
+		})
+		r.Check(n >= 2 && ok, rule, look.Key()+": new / lost is decided by looking the peer's String() up in the other report's workload set", p.Pos(look.Decl.Pos()), fmt.Sprintf("%d lookups", n), "the new/lost lookup uses a key other than Peer.String()")
+	}
+}
+
+// KeyAndMatcherNormaliseAlike is C07-b-norm: the key under which representative peers are de-duplicated and the
+// comparison that decides whether a rule matches a representative peer must induce the same equivalence on selectors;
+// structurally: the key function applies no re-ordering or case/space normalisation that the matcher does not apply.
+func KeyAndMatcherNormaliseAlike(p *core.Program, r *core.Report, rule string) {
+	kf := p.Func(core.PkgK8s, "", "UniqueKeyFromLabelsSelector")
+	mf := p.Func(core.PkgK8s, "", "SelectorsFullMatch")
+	if kf == nil || mf == nil {
+		r.Lost(rule, "k8s.UniqueKeyFromLabelsSelector / SelectorsFullMatch")
+		return
+	}
+	normalisers := func(fd *core.FuncDecl) map[string]bool {
+		out := map[string]bool{}
+		seen := map[*types.Func]bool{}
+		var rec func(fd *core.FuncDecl)
+		rec = func(fd *core.FuncDecl) {
+			if seen[fd.Obj] {
+				return
+			}
+			seen[fd.Obj] = true
+			info := fd.Pkg.TypesInfo
+			ast.Inspect(fd.Decl.Body, func(nd ast.Node) bool {
+				c, ok := nd.(*ast.CallExpr)
+				if !ok {
+					return true
+				}
+				fn := core.Callee(info, c)
+				if fn == nil || fn.Pkg() == nil {
+					return true
+				}
+				switch fn.Pkg().Path() {
+				case "sort", "slices":
+					out[fn.Pkg().Path()+"."+fn.Name()] = true
+				case "strings":
+					switch fn.Name() {
+					case "ToLower", "ToUpper", "TrimSpace", "Trim", "Fields", "ReplaceAll", "Replace", "Title":
+						out["strings."+fn.Name()] = true
+					}
+				}
+				if sub := p.ByObj[fn]; sub != nil && sub.Pkg.PkgPath == core.PkgK8s {
+					rec(sub)
+				}
+				return true
+			})
+		}
+		rec(fd)
+		return out
+	}
+	kn, mn := normalisers(kf), normalisers(mf)
+	var extra []string
+	for k := range kn {
+		if !mn[k] {
+			extra = append(extra, k)
+		}
+	}
+	r.Check(len(extra) == 0, rule, kf.Key()+": the de-duplication key normalises selectors no further than the rule matcher does", p.Pos(kf.Decl.Pos()), fmt.Sprintf("key: %v, matcher: %v", sortedKeys(kn), sortedKeys(mn)),
+		"the key function applies "+strings.Join(extra, ", ")+" which SelectorsFullMatch does not: two rules whose selectors the matcher tells apart now share one representative peer, the second rule does not match it, and its connections appear in no exposure entry")
+}
+
+// RepresentativePairExclusionTable is C07-g: a (peer, peer) pair with a representative end is left out of the
+// exposure computation only in the three documented cases.
+func RepresentativePairExclusionTable(p *core.Program, r *core.Report, rule string) {
+	fd := p.Func(core.PkgConnlist, "ConnlistAnalyzer", "includePairWithRepresentativePeer")
+	if fd == nil {
+		r.Add(rule, "(*ConnlistAnalyzer).includePairWithRepresentativePeer", "", core.Undecided, "renamed or removed: re-anchor the rule")
+		return
+	}
+	info := fd.Pkg.TypesInfo
+	// leaves of a condition, with one-line boolean helpers and boolean locals unfolded
+	var leaves func(in *types.Info, e ast.Expr, depth int) []string
+	leaves = func(in *types.Info, e ast.Expr, depth int) []string {
+		e = ast.Unparen(e)
+		switch x := e.(type) {
+		case *ast.BinaryExpr:
+			if x.Op == token.LAND || x.Op == token.LOR {
+				return append(leaves(in, x.X, depth), leaves(in, x.Y, depth)...)
+			}
+			s := core.ExprStr(x)
+			if strings.Contains(s, "IngressPodName") {
+				return []string{"ing"}
+			}
+			return []string{"other:" + s}
+		case *ast.UnaryExpr:
+			if x.Op == token.NOT {
+				return leaves(in, x.X, depth)
+			}
+		case *ast.Ident:
+			if in == info {
+				if d, _ := defOf(fd, x); d != nil {
+					return leaves(in, d, depth)
+				}
+			}
+			return []string{"other:" + x.Name}
+		case *ast.CallExpr:
+			fn := core.Callee(in, x)
+			if fn != nil {
+				switch fn.Name() {
+				case "IsRepresentativePeer":
+					return []string{"rep"}
+				case "IsPeerIPType":
+					return []string{"ip"}
+				}
+				if depth < 2 {
+					if ib := p.InlineBool(in, x); ib != nil {
+						return leaves(ib.Info, ib.Expr, depth+1)
+					}
+				}
+			}
+			return []string{"other:" + core.ExprStr(x)}
+		}
+		return []string{"other:" + core.ExprStr(e)}
+	}
+	n := 0
+	rows := map[string]bool{}
+	var stack []ast.Node
+	ast.Inspect(fd.Decl.Body, func(nd ast.Node) bool {
+		if nd == nil {
+			stack = stack[:len(stack)-1]
+			return true
+		}
+		stack = append(stack, nd)
+		ret, ok := nd.(*ast.ReturnStmt)
+		if !ok || len(ret.Results) != 1 || core.ExprStr(ret.Results[0]) != "false" {
+			return true
+		}
+		n++
+		var ls []string
+		for _, anc := range stack {
+			if ifs, isIf := anc.(*ast.IfStmt); isIf && ret.Pos() >= ifs.Body.Pos() && ret.Pos() < ifs.Body.End() {
+				ls = append(ls, leaves(info, ifs.Cond, 0)...)
+			}
+		}
+		has := map[string]bool{}
+		var others []string
+		for _, l := range ls {
+			if strings.HasPrefix(l, "other:") {
+				others = append(others, strings.TrimPrefix(l, "other:"))
+			} else {
+				has[l] = true
+			}
+		}
+		row := "?"
+		switch {
+		case len(others) > 0 || !has["rep"]:
+			row = "?"
+		case !has["ip"] && !has["ing"]:
+			row = "both representative"
+		case has["ip"] && !has["ing"]:
+			row = "representative and IP"
+		case has["ing"] && !has["ip"]:
+			row = "representative and ingress controller"
+		}
+		ok2 := row != "?" && !rows[row]
+		rows[row] = true
+		r.Check(ok2, rule, fmt.Sprintf("%s: exclusion #%d is one of the three documented cases (%s)", fd.Key(), n, row), p.Pos(ret.Pos()), "",
+			"a pair with a representative peer is excluded for a reason ("+strings.Join(others, ", ")+") that is not one of: both ends representative, representative with an IP block, representative with the ingress controller - the exposure of the workload towards that representative peer is then never computed and goes unreported")
+		return true
+	})
+	// the final verdict is `true`
+	last := fd.Decl.Body.List[len(fd.Decl.Body.List)-1]
+	if ret, ok := last.(*ast.ReturnStmt); !ok || len(ret.Results) != 1 || core.ExprStr(ret.Results[0]) != "true" {
+		r.Bad(rule, fd.Key()+": every other pair is included", p.Pos(last.Pos()), "the function no longer ends in `return true`")
+	}
+	r.RuleCounts[rule] = n
+	r.Floor(rule, 3)
+}
